@@ -76,6 +76,16 @@ impl UpgradeBinder {
             x => panic!("fixture {x}"),
         }
     }
+    /// the argument list handed to `migrate`: "unit" = [()], "str" = [String], "empty" = [], "two" = [(), ()]
+    fn data_args(&self, d: &str) -> SVec<Val> {
+        let env = &self.cx.env;
+        match d {
+            "empty" => SVec::new(env),
+            "two" => svec![env, Val::VOID.into(), Val::VOID.into()],
+            x => svec![env, self.data_val(x)],
+        }
+    }
+
     fn data_val(&self, d: &str) -> Val {
         match d {
             "unit" => Val::VOID.into(),
@@ -98,7 +108,7 @@ impl UpgradeBinder {
                 self.cx.call_auth(&auths, &target, "upgrade", args)
             }
             "Migrate" => {
-                let args: SVec<Val> = svec![&env, self.data_val(act["data"].as_str().unwrap())];
+                let args: SVec<Val> = self.data_args(act["data"].as_str().unwrap());
                 let auths: Vec<(Address, Inv)> = Self::names(act, "auth").iter().map(|n| (self.cx.addr(n), Inv::new(&target, "migrate", args.clone()))).collect();
                 self.cx.call_auth(&auths, &target, "migrate", args)
             }
@@ -114,8 +124,7 @@ impl UpgradeBinder {
             }
             "UpgraderUpgrade" => {
                 let h = self.hash(act["new"].as_str().unwrap());
-                let d = self.data_val(act["data"].as_str().unwrap());
-                let md: SVec<Val> = svec![&env, d];
+                let md: SVec<Val> = self.data_args(act["data"].as_str().unwrap());
                 let args: SVec<Val> = svec![&env, target.into_val(&env), SStr::from_str(&env, act["version"].as_str().unwrap()).into_val(&env), h.into_val(&env), md.into_val(&env)];
                 let up_args: SVec<Val> = svec![&env, h.into_val(&env)];
                 let mut auths: Vec<(Address, Inv)> = vec![];
